@@ -228,9 +228,8 @@ class LocalFileStore(Store):
 
     def sync_paths(self, paths: "OrderedDict[DDSPath, PyHash]") -> None:
         for (path, key) in paths.items():
-            splits = [s.replace("/", "") for s in os.path.split(path)]
-            loc_dir = os.path.join(self._data_root, *(splits[:-1]))
-            loc = os.path.join(loc_dir, splits[-1])
+            loc = self._path_location(path)
+            loc_dir = os.path.dirname(loc)
             if not os.path.exists(loc_dir):
                 _logger.debug(f"Creating dir {loc_dir}")
                 os.makedirs(loc_dir)
@@ -248,9 +247,8 @@ class LocalFileStore(Store):
         for path in paths:
             if path not in res:
                 # Assemble the path
-                splits = [s.replace("/", "") for s in os.path.split(path)]
-                loc_dir = os.path.join(self._data_root, *(splits[:-1]))
-                loc = os.path.join(loc_dir, splits[-1])
+                loc = self._path_location(path)
+                loc_dir = os.path.dirname(loc)
                 if not os.path.exists(loc_dir):
                     _logger.debug(f"Dir {loc_dir} does not exist")
                     raise DDSException(
@@ -268,6 +266,19 @@ class LocalFileStore(Store):
 
     def codec_registry(self) -> CodecRegistry:
         return codec_registry()
+
+    def _path_location(self, path: DDSPath) -> str:
+        """
+        The location of a path in the data directory: one directory level per non-empty segment
+        of the path, so that distinct paths never share a location and stay inside the data directory.
+        """
+        segments = [s for s in path.split("/") if s]
+        if not segments or any(s in (".", "..") for s in segments):
+            raise DDSException(
+                f"The path {path} cannot be mapped to a location inside the data directory {self._data_root}",
+                DDSErrorCode.STORE_PATH_NOT_SUPPORTED,
+            )
+        return os.path.join(self._data_root, *segments)
 
 
 def current_timestamp() -> int:
